@@ -502,11 +502,26 @@ def run(ctx):
                         ob = {0: signer.get_bits(), 1: signer.get_bits(), 2: 256}[ci]
                         for kind, mb in malformed(rng, ci, good, ob):
                             lab, o = objs[rng.randrange(len(objs))]
-                            code = one(o, lab, k["label"], data, mb, kind)
+                            expect = None
+                            if kind.startswith("name:") and kind != "name:same":
+                                nm = parts(mb)[0]
+                                foreign = (nm.decode("latin1") not in type(signer).HASHES) if ci == 0 else nm != name
+                                expect = False if foreign else None
+                            code = one(o, lab, k["label"], data, mb, kind, expect=expect)
+                    if ci == 0 and alg is None and data:
+                        # PuTTY-style: a genuine signature whose leading zero byte(s) were dropped must still verify
+                        for t in range(4000):
+                            d2 = data + t.to_bytes(2, "big")
+                            g2 = signer.sign_ssh_data(d2).asbytes()
+                            nm2, bl2 = parts(g2)
+                            if bl2[:1] == b"\x00":
+                                for lab, o in objs[:3]:
+                                    one(o, lab, k["label"], d2, build(nm2, bl2.lstrip(b"\x00")), "rsa-genuine-unpadded", expect=True)
+                                break
     # ---- model correspondence --------------------------------------------------------------
     # the model is evaluated on a stratified seeded subsample (every case went through the oracle above):
     # at least two cases per (class, mutation kind), then random fill up to the cap
-    cap = 2400 if ctx.thorough else 420
+    cap = 2400 if ctx.thorough else 1000
     if len(vcases) > cap:
         strata = {}
         for c in vcases:
